@@ -1,4 +1,5 @@
 import ShpanVerif.Drive.PipeCommon
+import ShpanVerif.Drive.PipeDyn
 import ShpanVerif.Spec.PipeDemand
 import ShpanVerif.Drive.C05Async
 import ShpanVerif.Drive.C05Query
@@ -32,6 +33,7 @@ def specRun (p : Pipe) (r : Run) (o : ObsRun) : Bool × String :=
   | _, _ => (true, "")
 
 def handle (c obs : String) : String × Bool × String :=
+  if c.startsWith "DYN " then ShpanVerif.Drive.PipeDyn.handle c obs else   -- FlatMap family (Model/PipeDyn.lean)
   -- "A ..." cases: run-ahead of the asynchronous stages (Buffered / concurrent map), concurrency family
   if c.startsWith "A " then ShpanVerif.Drive.C05Async.handle c obs else
   -- "Q ..." cases: tsquery planning (Execute/Filter) must not touch any source, query family
